@@ -1,6 +1,9 @@
 package gojq
 
-import "fmt"
+import (
+	"fmt"
+	"slices"
+)
 
 // CompilerOption is a compiler option.
 type CompilerOption func(*compiler)
@@ -61,6 +64,12 @@ func withFunction(name string, minarity, maxarity int, iter bool, f func(any, []
 		panic(fmt.Sprintf("invalid arity for %q: %d, %d", name, minarity, maxarity))
 	}
 	argcount := 1<<(maxarity+1) - 1<<minarity
+	f = func(f func(any, []any) any) func(any, []any) any {
+		return func(v any, args []any) any {
+			// the interpreter reuses args, but the function may retain or return it
+			return f(v, slices.Clone(args))
+		}
+	}(f)
 	return func(c *compiler) {
 		if c.customFuncs == nil {
 			c.customFuncs = make(map[string]function)
